@@ -19,7 +19,21 @@ pub enum ShuffleCase {
     /// determinism and content independence for one generator state
     Det { n: usize, market: bool, seed: u64, layout_a: Vec<u8>, layout_b: Vec<u8>, #[serde(default = "yes")] trading: bool },
     /// uniformity campaign: `steps` seeded steps of batch size `n`
-    Uniform { n: usize, market: bool, stream: bool, steps: u64, seed: u64, alpha_exp: u32, cases_in_run: u32, #[serde(default = "yes")] trading: bool },
+    Uniform {
+        n: usize,
+        market: bool,
+        stream: bool,
+        steps: u64,
+        seed: u64,
+        alpha_exp: u32,
+        cases_in_run: u32,
+        #[serde(default = "yes")]
+        trading: bool,
+        /// every step of the campaign runs on ONE environment (and one generator stream): state an environment
+        /// carries from step to step (queue storage, counters) is part of the sample
+        #[serde(default)]
+        long_lived: bool,
+    },
 }
 
 fn yes() -> bool {
@@ -144,6 +158,90 @@ fn measured_step(n: usize, market: bool, trading: bool, layout: &[u8], rng: &mut
     Ok(pos)
 }
 
+/// One environment for a whole campaign. Each step submits `n` instructions: cancels of the orders the previous
+/// step created (at most n/2) and new non-crossing limit orders, in a generated submission order; every one
+/// reveals its processed position (end time / arrival time). The book stays small, the environment ages.
+struct LongLived {
+    env: Box<dyn DynEnv>,
+    prev: Vec<(usize, usize)>,
+    na: usize,
+    market: bool,
+    age: u64,
+}
+
+/// an environment is replaced after this many steps (its order table only ever grows)
+const LONG_LIVED_STEPS: u64 = 20_000;
+
+impl LongLived {
+    fn new(market: bool) -> Self {
+        let assets = if market { 2 } else { 0 };
+        LongLived { env: new_env(assets, 1, 0, &[1u32, 1, 1, 1], 1_000, true), prev: vec![], na: assets.max(1), market, age: 0 }
+    }
+    fn step(&mut self, n: usize, s: &mut u64, rng: &mut Xoroshiro128StarStar) -> Result<Vec<usize>, String> {
+        self.age += 1;
+        if self.age > LONG_LIVED_STEPS {
+            *self = LongLived::new(self.market);
+        }
+        let n_cancel = self.prev.len().min(n / 2);
+        // submission order: which of the n slots are cancels
+        let mut is_cancel = vec![false; n];
+        let mut left = n_cancel;
+        for i in 0..n {
+            if left > 0 && (splitmix(s) % (n - i) as u64) < left as u64 {
+                is_cancel[i] = true;
+                left -= 1;
+            }
+        }
+        let start = self.env.time();
+        let mut readers: Vec<(bool, (usize, usize))> = vec![];
+        let mut created = vec![];
+        let mut pc = 0;
+        for i in 0..n {
+            if is_cancel[i] {
+                let id = self.prev[pc];
+                pc += 1;
+                self.env.cancel_order(id);
+                readers.push((true, id));
+            } else {
+                let a = i % self.na;
+                let bid = splitmix(s) % 2 == 0;
+                let price = if bid { MID - 15 + (i as u32 % 9) } else { MID + 1 + (i as u32 % 10) };
+                let id = self.env.place_order(a, bid, 1 + (i as u32 % 3), 1, Some(price))?;
+                readers.push((false, id));
+                created.push(id);
+            }
+        }
+        // orders of the previous step that were not cancelled now are cancelled later
+        let rest: Vec<(usize, usize)> = self.prev[pc..].to_vec();
+        self.env.step(rng);
+        let mut pos = vec![usize::MAX; n];
+        let mut seen = vec![false; n];
+        for (i, (cancel, id)) in readers.iter().enumerate() {
+            let o = self.env.order(*id);
+            let t = if *cancel {
+                if o.status != St::Cancelled {
+                    return Err(format!("order {:?} cancelled by instruction {} is {:?}", id, i, o.status));
+                }
+                o.end_time
+            } else {
+                if o.status != St::Active {
+                    return Err(format!("new order {:?} is {:?} after the step", id, o.status));
+                }
+                o.arr_time
+            };
+            let q = t.wrapping_sub(start);
+            if q >= n as u64 || seen[q as usize] {
+                return Err(format!("processed positions are not a permutation of 0..{}: instruction {} at time {} (start {})", n, i, t, start));
+            }
+            seen[q as usize] = true;
+            pos[i] = q as usize;
+        }
+        self.prev = rest;
+        self.prev.extend(created);
+        Ok(pos)
+    }
+}
+
 fn layout_from(seed: &mut u64, n: usize, mixed: bool) -> Vec<u8> {
     (0..n).map(|_| if mixed { (splitmix(seed) % 4) as u8 } else { (splitmix(seed) % 2) as u8 }).collect()
 }
@@ -239,8 +337,9 @@ fn run(c: &ShuffleCase) -> (Vec<(&'static str, u64)>, bool, Result<(), Failure>)
             classes.push(("det_batches_with_instruction_for_order_of_same_batch", (la.contains(&4) || lb.contains(&4)) as u64));
             (classes, kinds >= 2 && n >= 2, Ok(()))
         }
-        ShuffleCase::Uniform { n, market, stream, steps, seed, alpha_exp, cases_in_run, trading } => {
+        ShuffleCase::Uniform { n, market, stream, steps, seed, alpha_exp, cases_in_run, trading, long_lived } => {
             let n = *n;
+            let mut aged = if *long_lived { Some(LongLived::new(*market)) } else { None };
             let small = n <= 6;
             let nf = if small { (1..=n).product::<usize>() } else { 0 };
             let mut perm_counts = vec![0u64; if small { nf } else { 0 }];
@@ -260,7 +359,15 @@ fn run(c: &ShuffleCase) -> (Vec<(&'static str, u64)>, bool, Result<(), Failure>)
                     mixed_steps += 1;
                 }
                 let step_seed = splitmix(&mut s);
-                let pos = if *stream {
+                let pos = if let Some(ll) = aged.as_mut() {
+                    mixed_steps += 1;
+                    if *stream {
+                        ll.step(n, &mut s, &mut stream_rng).map(|p| p.into_iter().map(Some).collect())
+                    } else {
+                        let mut r = Xoroshiro128StarStar::seed_from_u64(step_seed);
+                        ll.step(n, &mut s, &mut r).map(|p| p.into_iter().map(Some).collect())
+                    }
+                } else if *stream {
                     measured_step(n, *market, *trading, &layout, &mut stream_rng)
                 } else {
                     let mut r = Xoroshiro128StarStar::seed_from_u64(step_seed);
@@ -389,7 +496,11 @@ pub fn parts(tier: Tier) -> (Vec<Part<Case>>, String) {
     let all_sizes: Vec<usize> = (2..=64usize).rev().collect();
     let n_all = all_sizes.len();
     let steps_all: u64 = crate::engine::scaled(tier.pick(800_000, 6_000_000));
-    let total = (n_on + n_off + n_all) as u64;
+    // long-lived environments: one environment (and generator stream) for a whole campaign
+    const LONG_SIZES: [usize; 3] = [6, 24, 64];
+    let n_long = LONG_SIZES.len() * 2;
+    let steps_long: u64 = crate::engine::scaled(tier.pick(150_000, 1_500_000));
+    let total = (n_on + n_off + n_all + n_long) as u64;
     let uniform = Part {
         name: "uniformity-campaigns".to_string(),
         kind: PartKind::Exhaustive {
@@ -401,16 +512,19 @@ pub fn parts(tier: Tier) -> (Vec<Part<Case>>, String) {
                     let n = SIZES[SIZES.len() - 1 - k / 4];
                     let market = k % 2 == 1;
                     let stream = (k / 2) % 2 == 1;
-                    Some(Case::Shuffle(ShuffleCase::Uniform { n, market, stream, steps, seed, alpha_exp: 9, cases_in_run: total as u32, trading: true }))
+                    Some(Case::Shuffle(ShuffleCase::Uniform { n, market, stream, steps, seed, alpha_exp: 9, cases_in_run: total as u32, trading: true, long_lived: false }))
                 } else if k < n_on + n_off {
                     let j = k - n_on;
-                    Some(Case::Shuffle(ShuffleCase::Uniform { n: OFF_SIZES[j / 2], market: j % 2 == 1, stream: false, steps, seed, alpha_exp: 9, cases_in_run: total as u32, trading: false }))
+                    Some(Case::Shuffle(ShuffleCase::Uniform { n: OFF_SIZES[j / 2], market: j % 2 == 1, stream: false, steps, seed, alpha_exp: 9, cases_in_run: total as u32, trading: false, long_lived: false }))
+                } else if k >= n_on + n_off + n_all {
+                    let j = k - n_on - n_off - n_all;
+                    Some(Case::Shuffle(ShuffleCase::Uniform { n: LONG_SIZES[j / 2], market: j % 2 == 1, stream: true, steps: steps_long, seed: seed ^ 0x10E6, alpha_exp: 9, cases_in_run: total as u32, trading: true, long_lived: true }))
                 } else {
                     let j = k - n_on - n_off;
-                    Some(Case::Shuffle(ShuffleCase::Uniform { n: all_sizes[j], market: false, stream: false, steps: steps_all, seed: seed ^ 0xA11, alpha_exp: 9, cases_in_run: total as u32, trading: true }))
+                    Some(Case::Shuffle(ShuffleCase::Uniform { n: all_sizes[j], market: j % 2 == 1, stream: false, steps: steps_all, seed: seed ^ 0xA11, alpha_exp: 9, cases_in_run: total as u32, trading: true, long_lived: true }))
                 }
             }),
-            description: format!("one campaign of {} seeded steps for each batch size in {:?} x environment in {{Env, MarketEnv<2>}} x generator in {{freshly seeded per step, one continuing stream}} with trading enabled, plus batch sizes {:?} x both environments during a no-trading period, plus one campaign of {} steps for EVERY batch size 2..=64 (Env, fresh seed per step); repeat statistic over position windows in every campaign", steps, SIZES, OFF_SIZES, steps_all),
+            description: format!("one campaign of {} seeded steps for each batch size in {:?} x environment in {{Env, MarketEnv<2>}} x generator in {{freshly seeded per step, one continuing stream}} with trading enabled, plus batch sizes {:?} x both environments during a no-trading period, plus one campaign of {} steps for EVERY batch size 2..=64 (Env and MarketEnv<2> alternating, fresh seed per step, all steps on long-lived environments, each used for 20 000 consecutive steps); plus campaigns of {} steps on long-lived environments (20 000 consecutive steps each, one continuing generator stream) for batch sizes {:?} x both environments (each step cancels the previous step's orders and places new ones); repeat statistic over position windows in every campaign", steps, SIZES, OFF_SIZES, steps_all, steps_long, LONG_SIZES),
         },
     };
     let det = Part {
